@@ -48,6 +48,8 @@ def step' (st : St) : List String → St × String
   | ["cancel", id] => doStep st (.cancel id) id
   -- the robot's steps attempted by an ordinary client certificate: refused, nothing changes
   | ["xto", _, _, _] | ["xcommit", _] | ["xdelto", _] | ["xdelfrom", _] | ["xcancel", _] => (st, "err")
+  -- malformed create-to contents and initiations: refused whatever the state, nothing changes
+  | ["tobad", _, _, _, _] | ["frombad", _, _, _, _] => (st, "err")
   | ["dump"] => (st, dump st)
   | _ => (st, "bad-op")
 
@@ -60,6 +62,7 @@ def clause : List String → String
   | "fromlc" :: _ => "debit_once"
   | "to" :: _ => "credit_at_most_once"
   | "cancel" :: _ => "refund_exact"
+  | "tobad" :: _ | "frombad" :: _ => "malformed_request_refused"
   | "xto" :: _ | "xcommit" :: _ | "xdelto" :: _ | "xdelfrom" :: _ | "xcancel" :: _ => "robot_step_by_stranger"
   | _ => "record_lifecycle"
 
